@@ -19,6 +19,11 @@ EXPECT = {
     "term conversion errors inside expressions": ["C14"],
     "separated by commas": ["C14"],
     "lex as identifiers": ["C14"],
+    "sets hold each element once": ["C12"],
+    "its own copy of the builder": ["C08"],
+    "several WithWorldOptions": ["C11"],
+    "variable names must be declared": ["C02"],
+    "New and Append refuse": ["C02"],
 }
 def sh(cmd, **kw):
     return subprocess.run(cmd, shell=True, capture_output=True, text=True, **kw)
